@@ -193,6 +193,24 @@ for k, v in TECH_ADD10.items():
     t, txt, note, ref = CLAIMED[k]
     CLAIMED[k] = (t + v, txt, note, ref)
 
+TECH_ADD11 = {
+ "C01": "; a pointer-receiver method of a foreign type called on the address of a tree field (n.buf.Reset()) is a write (R01.2)",
+ "C03": "; a store dst[name] in a map-ordered loop where name is a local translated through another table (aliases) is order dependent (R03.1)",
+ "C04": "; the source a file-reading Load returns is string(bytes read) on every edge, through helpers (R04.12); the argument of Parser.Parse is a parameter, field or loader result — never the result of strings/bytes/regexp functions, a slice or a concatenation (R04.13)",
+ "C05": "; a non-constant index into []rune(s) needs a comparison involving the rune count in the function (R05.17)",
+ "C08": "; where a keyword is found in tag text (p = index search in x) and x[p+k:] is tokenised, x[:p] is taken and handed on too (R08.17); every function comparing a BinaryNode's operator (or a parameter that receives it) with a constant is EvaluateExpression or statically reached from it within four calls (R08.18); helpers answering `decided` for short-circuit operators are summarised (R08.2)",
+ "C10": "; every successful return of Parser.Parse is a *RootNode built there (R10.14)",
+ "C11": "; the same consumption rule for the include tag (R11.12)",
+ "C13": "; in a switch over Token.Type, separate arms for a delimiter kind and its _TRIM twin move tokenIndex the same number of times (R13.7)",
+ "C14": "; Parse gets the source unchanged (R14.13)",
+ "C15": "; `does not exist` answers of Exists are not decided by a memo alone (R15.11); no return inside a walk over a list of loaders is decided by an errors.Is / errors.As classification (R15.15)",
+ "C17": "; only errors.Is(err, ErrTemplateNotFound / ErrNotExist) ends the obligation to return a failure — any other classification followed by a nil error is a swallowed failure (R17.1)",
+ "C19": "; a loop that applies a filter chain is left early only by a return with a non-nil error (R19.7)",
+}
+for k, v in TECH_ADD11.items():
+    t, txt, note, ref = CLAIMED[k]
+    CLAIMED[k] = (t + v, txt, note, ref)
+
 NOT_YET = "static rule for this property not implemented yet at this commit (planned, see DESIGN.md §2)"
 NA = {}
 
